@@ -100,6 +100,8 @@ def main():
     for tag, W, R, gen, genc, suf in plans:
         for k in range(n):
             d = gen()
+            if k % 4 == 1:
+                d = with_hostile_names(d, rng, HOSTILE_NAMES + ['2024', '7', '007', '12ab'])
             names = [f['name'] for f, _, _ in d_features(d)]
             d['ctcs'] = [{'name': f'c{i}', 'ast': genc(names)} for i in range(rng.randint(0, 3))]
             p = os.path.join(tmp, f'{tag}{k}{suf}')
